@@ -204,6 +204,15 @@ theorem containsCheck_ok (u : Int) (m : Mgr) (h : m.tbl.Mem u) : containsCheck u
   have hm : m.mem u = true := (Mgr.mem_iff m u).mpr h
   simp [containsCheck, bind, M.bind', M.get, hm, pure, M.pure']
 
+/-- `Function.level` of a node of the manager -/
+theorem functionLevel_ok (m : Mgr) (u : Int) (hu : m.tbl.Mem u) :
+    functionLevel u m = (.ok (m.tbl.levelOf u), m) := by
+  unfold functionLevel
+  show M.bind' M.get (fun m => M.ofOption Err.key (m.tbl.levelOf? u)) m = _
+  unfold M.bind' M.get
+  simp only [Tbl.levelOf?_eq m.tbl u hu]
+  rfl
+
 theorem assert_ok (b : Bool) (m : Mgr) (h : b = true) : M.assert b .assertion m = (.ok (), m) := by
   subst h; rfl
 
@@ -740,83 +749,154 @@ theorem refOf_ge (m : Mgr) (e : Nat → Nat) (h : GoodState m e) (u : Int) (hu :
   have hg := h.exact.get hu
   exact ⟨_, refOf_eq m u _ hg, by omega⟩
 
-/-- the loop `for uid in cache:` of `_load_json` (`load_order=False`): every reference taken
-by `_make_node` is released; the `Function` still bound to the loop variable is returned -/
-theorem releaseLoop_spec {succ : List PEntry} {lm : List (Nat × Nat)} {n : Nat}
-    (hs : SuccWF succ n) (hdom : ∀ k e, PEntry.find succ k = some e → k ≠ 1 → (lm.lookup e.lvl).isSome)
-    (cache : List (Nat × Int)) (hn : (cache.map (·.1)).Nodup) :
-    ∀ (ents : List (Nat × Int)) (prev : Option Int) (m : Mgr) (e : Nat → Nat),
-      (∀ p ∈ ents, p ∈ cache) → ShelfOK succ lm n m.tbl cache →
-      GoodState m (extAdd e (ents.map (·.2.natAbs) ++ prev.toList.map Int.natAbs)) →
-      ∃ last r, releaseLoop false cache ents prev m = (.ok (), last, { m with ref := r }) ∧
-        GoodState { m with ref := r } (extAdd e (last.toList.map Int.natAbs)) := by
+/-- the references the shelf holds -/
+def shelfRefs (c : List (Nat × Int)) : List Nat := c.map (·.2.natAbs)
+
+theorem GoodState.permL {e : Nat → Nat} {l l' : List Nat} {m : Mgr} (h : GoodState m (extAdd e l))
+    (hp : l.Perm l') : GoodState m (extAdd e l') := by rw [← extAdd_perm e hp]; exact h
+
+/-- a shelf entry is fetched: one more reference on its node -/
+theorem fetch_shelf (e : Nat → Nat) (cache : List (Nat × Int)) (hn : (cache.map (·.1)).Nodup)
+    (k : Nat) (u0 : Int) (hm : (k, u0) ∈ cache) (hk1 : k ≠ 1) (m : Mgr) (L : List Nat)
+    (hg : GoodState m (extAdd e L)) (hin : u0.natAbs ∈ L) :
+    ∃ r, nodeFromInt cache (k : Int) m = (.ok u0, { m with ref := r }) ∧
+      GoodState { m with ref := r } (extAdd e (u0.natAbs :: L)) := by
+  have hlk := dmp_lookup_of_mem_nodup cache hn k u0 hm
+  have hpos : 0 < extAdd e L u0.natAbs := by
+    have : 0 < L.count u0.natAbs := List.count_pos_iff.mpr hin
+    simp only [extAdd]; omega
+  have hmem : m.tbl.Mem u0 := hg.exact.mem_of_ext_pos hpos
+  obtain ⟨r, hw, g⟩ := dmp_wrap_spec m _ hg u0 hmem
+  rw [extInc_extAdd] at g
+  refine ⟨r, ?_, g⟩
+  unfold DD.nodeFromInt
+  have a1 : ¬ ((k : Int) = -1) := by omega
+  have a2 : ¬ ((k : Int) = 1) := by omega
+  have a3 : ¬ ((k : Int) < 0) := by omega
+  have a4 : ((k : Int)).natAbs = k := by simp
+  simp only [a1, a2, a3, a4, if_false]
+  have hlook : (M.ofOption Err.key (cache.lookup k) : M Int) m = (.ok u0, m) := by rw [hlk]; rfl
+  refine (M.bind_eq_ok hlook).trans ?_
+  refine (M.bind_eq_ok hw).trans ?_
+  rfl
+
+theorem dropOpt_spec (e : Nat → Nat) (prev : Option Int) (m : Mgr) (L : List Nat)
+    (hg : GoodState m (extAdd e (prev.toList.map Int.natAbs ++ L))) :
+    ∃ r, dropOpt prev m = { m with ref := r } ∧ GoodState { m with ref := r } (extAdd e L) := by
+  cases prev with
+  | none => exact ⟨m.ref, rfl, by simpa using hg⟩
+  | some p =>
+    simp only [Option.toList, List.map_cons, List.map_nil, List.cons_append, List.nil_append] at hg
+    obtain ⟨r, hd, g⟩ := dmp_drop_spec m _ hg p (extAdd_pos _ _ _)
+    rw [extDec_extAdd] at g
+    exact ⟨r, hd, g⟩
+
+/-- `for uid in cache: u = _node_from_int(…); bdd.decref(u)` — in the `except` clause and after a
+successful `try:` —: the shelf's references are given back, whatever the shelf holds -/
+theorem releaseFailed_spec (e : Nat → Nat) (cache : List (Nat × Int)) (hn : (cache.map (·.1)).Nodup)
+    (h1 : ∀ p ∈ cache, p.1 ≠ 1) :
+    ∀ (ents : List (Nat × Int)) (prev : Option Int) (m : Mgr) (L : List Nat),
+      (∀ p ∈ ents, p ∈ cache) →
+      GoodState m (extAdd e (prev.toList.map Int.natAbs ++ (shelfRefs ents ++ L))) →
+      ∃ last r, releaseFailed cache ents prev m = (.ok (), last, { m with ref := r }) ∧
+        GoodState { m with ref := r } (extAdd e (last.toList.map Int.natAbs ++ L)) := by
   intro ents
   induction ents with
   | nil =>
-    intro prev m e _ _ h
-    exact ⟨prev, m.ref, rfl, by simpa using h⟩
+    intro prev m L _ hg
+    exact ⟨prev, m.ref, rfl, by simpa [shelfRefs] using hg⟩
   | cons p rest ih =>
-    intro prev m e hsub hc h
+    intro prev m L hsub hg
     obtain ⟨k, u0⟩ := p
-    have hlk : cache.lookup k = some u0 := dmp_lookup_of_mem_nodup cache hn k u0 (hsub _ List.mem_cons_self)
-    obtain ⟨u0pos, u0mem, hk1, _, _⟩ := hc k u0 hlk
-    have hnat : ((k : Int)).natAbs = k := by simp
-    obtain ⟨u, r1, e1, g1, mu, su, _, hlu, _⟩ := nodeFromInt_spec hs hdom m _ h cache hc (k : Int)
-      (Or.inr (by rw [hnat, hlk]; rfl))
-    have hu : u = u0 := by
-      have := hlu (by rw [hnat]; exact hk1)
-      rw [hnat, hlk] at this
-      have hneg : ¬ ((k : Int) < 0) := by omega
-      simp only [hneg, if_false, Option.some.injEq] at this
-      exact this.symm
-    subst hu
-    -- the previous `Function` is rebound
-    have hperm : (u.natAbs :: ((k, u) :: rest).map (·.2.natAbs) ++ prev.toList.map Int.natAbs).Perm
-        (prev.toList.map Int.natAbs ++ (u.natAbs :: u.natAbs :: rest.map (·.2.natAbs))) := by
-      simp only [List.map_cons]
-      exact List.perm_append_comm
-    rw [extInc_extAdd] at g1
+    have hmem := hsub _ List.mem_cons_self
+    obtain ⟨r1, e1, g1⟩ := fetch_shelf e cache hn k u0 hmem (h1 _ hmem) m _ hg
+      (by simp [shelfRefs])
     have g1' : GoodState { m with ref := r1 }
-        (extAdd e (prev.toList.map Int.natAbs ++ (u.natAbs :: u.natAbs :: rest.map (·.2.natAbs)))) := by
-      rw [← extAdd_perm e hperm]; simpa using g1
-    obtain ⟨r2, ed, g2⟩ : ∃ r2, dropOpt prev { m with ref := r1 } = { m with ref := r2 } ∧
-        GoodState { m with ref := r2 } (extAdd e (u.natAbs :: u.natAbs :: rest.map (·.2.natAbs))) := by
-      cases prev with
-      | none => exact ⟨r1, rfl, by simpa using g1'⟩
-      | some p =>
-        simp only [Option.toList, List.map_cons, List.map_nil, List.cons_append, List.nil_append] at g1'
-        obtain ⟨r2, hd, hg⟩ := dmp_drop_spec { m with ref := r1 } _ g1' p (extAdd_pos _ _ _)
-        rw [extDec_extAdd] at hg
-        exact ⟨r2, hd, hg⟩
-    -- the checks and the release
-    obtain ⟨c, hc1, hc2⟩ := refOf_ge { m with ref := r2 } _ g2 u u0mem
+        (extAdd e (prev.toList.map Int.natAbs ++ (u0.natAbs :: u0.natAbs :: (shelfRefs rest ++ L)))) := by
+      apply g1.permL
+      simp only [shelfRefs, List.map_cons, List.cons_append]
+      exact List.perm_middle.symm
+    obtain ⟨r2, ed, g2⟩ := dropOpt_spec e prev { m with ref := r1 } _ g1'
+    obtain ⟨r3, hd3, g3⟩ := decref_ok_spec { m with ref := r2 } _ g2 u0 (extAdd_pos _ _ _)
+    rw [extDec_extAdd] at g3
+    obtain ⟨last, r4, e4, g4⟩ := ih (some u0) { m with ref := r3 } L
+      (fun p hp => hsub p (List.mem_cons_of_mem _ hp))
+      (by simpa using g3)
+    refine ⟨last, r4, ?_, g4⟩
+    rw [releaseFailed]
+    simp only [e1, ed, hd3]
+    exact e4
+
+/-- the loop of the checks at the end of the `try:` (`load_order=False`) on ANY shelf that is held:
+the `ref < 2` assertion passes for every entry; nothing is released -/
+theorem checkLoop_false_spec (e : Nat → Nat) (cache : List (Nat × Int)) (hn : (cache.map (·.1)).Nodup)
+    (h1 : ∀ p ∈ cache, p.1 ≠ 1) :
+    ∀ (ents : List (Nat × Int)) (prev : Option Int) (m : Mgr) (L : List Nat),
+      (∀ p ∈ ents, p ∈ cache) → (∀ p ∈ ents, p.2.natAbs ∈ L) →
+      GoodState m (extAdd e (prev.toList.map Int.natAbs ++ L)) →
+      ∃ last r, checkLoop false cache ents prev m = (.ok (), last, { m with ref := r }) ∧
+        GoodState { m with ref := r } (extAdd e (last.toList.map Int.natAbs ++ L)) := by
+  intro ents
+  induction ents with
+  | nil =>
+    intro prev m L _ _ hg
+    exact ⟨prev, m.ref, rfl, hg⟩
+  | cons p rest ih =>
+    intro prev m L hsub hheld hg
+    obtain ⟨k, u0⟩ := p
+    have hmem := hsub _ List.mem_cons_self
+    have hin : u0.natAbs ∈ L := hheld _ List.mem_cons_self
+    obtain ⟨r1, e1, g1⟩ := fetch_shelf e cache hn k u0 hmem (h1 _ hmem) m _ hg
+      (List.mem_append_right _ hin)
+    have g1' : GoodState { m with ref := r1 }
+        (extAdd e (prev.toList.map Int.natAbs ++ (u0.natAbs :: L))) := by
+      apply g1.permL
+      exact List.perm_middle.symm
+    obtain ⟨r2, ed, g2⟩ := dropOpt_spec e prev { m with ref := r1 } _ g1'
+    have u0mem : ({ m with ref := r2 } : Mgr).tbl.Mem u0 := g2.exact.mem_of_ext_pos (extAdd_pos _ _ _)
+    obtain ⟨c, hc1, hc2⟩ := refOf_ge { m with ref := r2 } _ g2 u0 u0mem
     have hc3 : 2 ≤ c := by
-      have : 2 ≤ extAdd e (u.natAbs :: u.natAbs :: rest.map (·.2.natAbs)) u.natAbs := by
+      have : 0 < L.count u0.natAbs := List.count_pos_iff.mpr hin
+      have : 2 ≤ extAdd e (u0.natAbs :: L) u0.natAbs := by
         simp [extAdd]; omega
       omega
-    obtain ⟨r3, hd3, g3⟩ := decref_ok_spec { m with ref := r2 } _ g2 u (extAdd_pos _ _ _)
-    rw [extDec_extAdd] at g3
-    have hbody : (refOf u >>= fun c => M.assert (decide (2 ≤ c)) >>= fun _ =>
-        if false = true then (M.assert (decide (3 ≤ c)) >>= fun _ => decref u) else decref u)
-        { m with ref := r2 } = (.ok (), { m with ref := r3 }) := by
+    have hbody : (refOf u0 >>= fun c => M.assert (decide (2 ≤ c)) >>= fun _ =>
+        if false = true then M.assert (decide (3 ≤ c)) else pure ())
+        { m with ref := r2 } = (.ok (), { m with ref := r2 }) := by
       refine (M.bind_eq_ok hc1).trans ?_
       refine (M.bind_eq_ok (assert_ok _ _ (by simpa using hc3))).trans ?_
-      simp only [Bool.false_eq_true, if_false]
-      exact hd3
-    have g3' : GoodState { m with ref := r3 }
-        (extAdd e (rest.map (·.2.natAbs) ++ (some u).toList.map Int.natAbs)) := by
-      have hp : (u.natAbs :: rest.map (·.2.natAbs)).Perm
-          (rest.map (·.2.natAbs) ++ (some u).toList.map Int.natAbs) := by
-        simp only [Option.toList, List.map_cons, List.map_nil]
-        exact List.perm_append_singleton _ _ |>.symm
-      rw [← extAdd_perm e hp]; exact g3
-    obtain ⟨last, r4, e4, g4⟩ := ih (some u) { m with ref := r3 } e
-      (fun p hp => hsub p (List.mem_cons_of_mem _ hp)) hc g3'
+      rfl
+    obtain ⟨last, r4, e4, g4⟩ := ih (some u0) { m with ref := r2 } L
+      (fun p hp => hsub p (List.mem_cons_of_mem _ hp)) (fun p hp => hheld p (List.mem_cons_of_mem _ hp))
+      (by simpa using g2)
     refine ⟨last, r4, ?_, g4⟩
-    rw [releaseLoop]
+    rw [checkLoop]
     simp only [e1, ed]
     rw [hbody]
     exact e4
+
+/-- the two loops over the shelf of a successful `load_json(load_order=False)`: the checks pass,
+then every reference taken by `_make_node` is released; the `Function` still bound to the loop
+variable is returned -/
+theorem checkRelease_false_spec (e : Nat → Nat) (cache : List (Nat × Int)) (hn : (cache.map (·.1)).Nodup)
+    (h1 : ∀ p ∈ cache, p.1 ≠ 1) (m : Mgr) (L : List Nat)
+    (hg : GoodState m (extAdd e (shelfRefs cache ++ L))) :
+    ∃ last0 r0 last r, checkLoop false cache cache none m = (.ok (), last0, { m with ref := r0 }) ∧
+      releaseFailed cache cache last0 { m with ref := r0 } = (.ok (), last, { m with ref := r }) ∧
+      GoodState { m with ref := r } (extAdd e (last.toList.map Int.natAbs ++ L)) := by
+  obtain ⟨last0, r0, e0, g0⟩ := checkLoop_false_spec e cache hn h1 cache none m (shelfRefs cache ++ L)
+    (fun _ h => h) (fun p hp => List.mem_append_left _ (List.mem_map.mpr ⟨p, hp, rfl⟩)) (by simpa using hg)
+  obtain ⟨last, r, e1, g1⟩ := releaseFailed_spec e cache hn h1 cache last0 { m with ref := r0 } L
+    (fun _ h => h) g0
+  exact ⟨last0, r0, last, r, e0, e1, g1⟩
+
+/-- the keys of a shelf whose entries are regular nodes of the file are not the terminal's -/
+theorem shelfOK_ids {succ : List PEntry} {lm : List (Nat × Nat)} {n : Nat} {t : Tbl}
+    {cache : List (Nat × Int)} (hn : (cache.map (·.1)).Nodup) (hc : ShelfOK succ lm n t cache) :
+    ∀ p ∈ cache, p.1 ≠ 1 := by
+  intro p hp
+  have hlk := dmp_lookup_of_mem_nodup cache hn p.1 p.2 hp
+  exact (hc p.1 p.2 hlk).2.2.1
 
 
 /-! ### `declare`, the level tables of the loader, the roots container -/
@@ -979,15 +1059,16 @@ theorem jsonHeader_true (f : JsonFile) (m m1 m2 : Mgr)
   simp only [if_true]
   exact h2
 
-theorem jsonTry_ok (f : JsonFile) (lo : Bool) (hn : f.roots ≠ .none) (m m1 m2 m3 : Mgr)
-    (cache : List (Nat × Int)) (us : List Int)
+theorem jsonTry_ok (f : JsonFile) (lo : Bool) (hn : f.roots ≠ .none) (m m1 m2 m3 m4 : Mgr)
+    (cache : List (Nat × Int)) (us : List Int) (last : Option Int)
     (hh : jsonHeader f lo m = (.ok (), m1))
     (hm : makeNodes lo (f.levelOfVar.foldl (fun acc (x : String × Nat) => (x.2, x.1) :: acc) []) f.nodes [] m1
       = (.ok cache, m2))
-    (hr : rootsFromInts cache f.roots.values m2 = (.ok us, m3)) :
-    jsonTry f lo m = (.ok us, cache, m3) := by
+    (hr : rootsFromInts cache f.roots.values m2 = (.ok us, m3))
+    (hck : checkLoop lo cache cache none m3 = (.ok (), last, m4)) :
+    jsonTry f lo m = (.ok us, cache, last, m4) := by
   unfold jsonTry
-  simp only [hh, makeNodesE_ok lo _ _ _ _ _ _ hm, jsonRoots_ok f hn cache m2 m3 us hr]
+  simp only [hh, makeNodesE_ok lo _ _ _ _ _ _ hm, jsonRoots_ok f hn cache m2 m3 us hr, hck]
 
 theorem loadJson_false_eq (f : JsonFile) (m : Mgr) :
     loadJson f false m = jsonFinish f false (jsonTry f false m) := by
@@ -1107,8 +1188,9 @@ theorem loadJson_false_spec (f : JsonFile) (hf : JsonWF f) (tgt : Mgr) (e : Nat 
       simp only [Option.toList, List.map_nil, List.append_nil]
       exact List.perm_append_comm
     rw [← extAdd_perm e hp]; exact g3
-  obtain ⟨last, r4, erl, g4⟩ := releaseLoop_spec hwf.succ hdom added n2 added none { m2 with ref := r3 }
-    (extAdd e (us.map Int.natAbs)) (fun _ h => h) c2 g3'
+  obtain ⟨last0, r0, last, r4, eck, erl, g4⟩ := checkRelease_false_spec (extAdd e (us.map Int.natAbs)) added n2
+    (shelfOK_ids n2 c2) { m2 with ref := r3 } [] (by simpa [shelfRefs] using g3')
+  simp only [List.append_nil] at g4
   -- the last `Function` of the loop dies
   obtain ⟨r5, ed5, g5⟩ : ∃ r5, dropOpt last { m2 with ref := r4 } = { m2 with ref := r5 } ∧
       GoodState { m2 with ref := r5 } (extAdd e (us.map Int.natAbs)) := by
@@ -1145,8 +1227,8 @@ theorem loadJson_false_spec (f : JsonFile) (hf : JsonWF f) (tgt : Mgr) (e : Nat 
     obtain ⟨v, hv1, hv2⟩ := hlmfacts _ _ hij
     exact ⟨v, hnames v i hv1, by rw [K12.frame.l2v]; exact (hO.inv v j).mp hv2⟩
   refine ⟨f.roots.rebuild us, { m2 with ref := r5 }, ?_, by rw [hvals]; exact g5, pn2.congr rfl rfl, ?_, ?_⟩
-  · rw [loadJson_false_eq, jsonTry_ok f false hsome tgt m1 m2 { m2 with ref := r3 } added us
-      (jsonHeader_false f tgt m1 ed) emk er]
+  · rw [loadJson_false_eq, jsonTry_ok f false hsome tgt m1 m2 { m2 with ref := r3 } { m2 with ref := r0 }
+      added us last0 (jsonHeader_false f tgt m1 ed) emk er eck]
     unfold jsonFinish
     simp only [erl, Bool.false_eq_true, if_false]
     have hfin : (liftE (Except.ok ()) >>= fun _ => dmpAssertConsistent >>= fun _ => (pure () : M Unit))
